@@ -280,8 +280,10 @@ void vp_harness(void) {
 	__CPROVER_assert(g_state->current_max_respond <= old_cmr, "C03.update.an_uplink_message_never_increases_the_outstanding_budget");
 	if (old_rl > 0 && accepted(head_type, in_type)) {
 		__CPROVER_assert(g_state->response_queue->length < old_rl, "C03.update.matching_answer_removes_the_oldest_request");
-		if (!head_expired) __CPROVER_assert(r == head_action && g_state->response_queue->length == old_rl - 1 && g_state->current_max_respond == old_cmr - COST(head_type),
-		                                    "C03.update.answer_in_time_frees_exactly_the_oldest_requests_cost_and_reports_its_action_id");
+		/* also when the oldest request is already past its expiry: the late answer is ITS answer - a younger request that accepts
+		 * the same type is neither answered nor expired and stays in the budget (finding D25) */
+		__CPROVER_assert(r == head_action && g_state->response_queue->length == old_rl - 1 && g_state->current_max_respond == old_cmr - COST(head_type),
+		                 "C03.update.an_answer_is_attributed_to_the_oldest_request_that_accepts_it_and_frees_exactly_that_requests_cost");
 	}
 	if (old_rl > 0 && !head_expired && !accepted(head_type, in_type))
 		__CPROVER_assert(g_state->response_queue->length == old_rl && g_state->current_max_respond == old_cmr && r == 0, "C03.update.unrelated_message_changes_nothing_before_expiry");
